@@ -495,6 +495,7 @@ type Contract struct {
 }
 
 type GlobalInv struct {
+	Assumed bool // `config`: a configuration assumption, never checked
 	Pkg   string
 	Name  string
 	E     Expr
@@ -517,15 +518,16 @@ type Contracts struct {
 	Axioms  []*Axiom
 	Globals []*GlobalInv
 	Tracked map[string]bool
+	Pools   map[string]string // global holding a *sync.Pool -> type of the pooled objects
 	Files   []string
 }
 
 func newContracts() *Contracts {
-	return &Contracts{ByKey: map[string]*Contract{}, Specs: map[string]*SpecFunc{}, Tracked: map[string]bool{}}
+	return &Contracts{ByKey: map[string]*Contract{}, Specs: map[string]*SpecFunc{}, Tracked: map[string]bool{}, Pools: map[string]string{}}
 }
 
 var clauseKeywords = map[string]bool{
-	"package": true, "func": true, "iface": true, "var": true, "global": true, "spec": true, "axiom": true, "track": true,
+	"pool": true, "config": true, "package": true, "func": true, "dyn": true, "iface": true, "var": true, "global": true, "spec": true, "axiom": true, "track": true,
 	"props": true, "arith": true, "requires": true, "ensures": true, "modifies": true, "loop": true,
 	"invariant": true, "decreases": true, "assert": true, "flag": true, "trusted": true,
 }
@@ -643,7 +645,7 @@ func (cs *Contracts) loadContractFile(file, pkg string, trusted bool) error {
 		case "package":
 			pkg = rest
 			cur = nil
-		case "func", "iface", "var":
+		case "func", "iface", "var", "dyn":
 			// KEY(params) results
 			cp := strings.LastIndexByte(rest, ')')
 			if cp < 0 {
@@ -675,19 +677,28 @@ func (cs *Contracts) loadContractFile(file, pkg string, trusted bool) error {
 				c.Key = "iface:" + key
 			case "var":
 				c.Key = "var:" + qualifyVar(pkg, key)
+			case "dyn":
+				c.Key = key
 			}
 			if _, dup := cs.ByKey[c.Key]; dup {
 				return fail(rl.line, "duplicate contract for %s", c.Key)
 			}
 			cs.ByKey[c.Key] = c
 			cur, curLoop = c, nil
-		case "global":
+		case "global", "config":
 			props, body := parseProps(rest)
 			e, err := parseExpr(body)
 			if err != nil {
 				return fail(rl.line, "%v in %q", err, body)
 			}
-			cs.Globals = append(cs.Globals, &GlobalInv{Pkg: pkg, E: e, Src: body, File: file, Line: rl.line, Props: props})
+			cs.Globals = append(cs.Globals, &GlobalInv{Pkg: pkg, E: e, Src: body, File: file, Line: rl.line, Props: props, Assumed: kw == "config"})
+			cur = nil
+		case "pool":
+			f := strings.Fields(rest)
+			if len(f) != 2 {
+				return fail(rl.line, "pool <global> <type>")
+			}
+			cs.Pools[qualifyVar(pkg, f[0])] = f[1]
 			cur = nil
 		case "track":
 			for _, n := range splitNames(rest) {
